@@ -58,6 +58,7 @@ func modPatterns(mod string) (string, []string) {
 func cmdRun(args []string) int {
 	fs := flag.NewFlagSet("run", flag.ExitOnError)
 	harness := fs.String("harness", "", "harness function")
+	raceFlag := fs.Bool("race", false, "native replay with -race")
 	mod := fs.String("mod", "", "module dir relative to /repo")
 	pkg := fs.String("pkg", ".", "package")
 	tier := fs.Int("tier", 0, "0 quick 1 thorough")
@@ -82,6 +83,7 @@ func cmdRun(args []string) int {
 	}
 	spec := HarnessSpec{Name: *harness, Mod: *mod, Pkg: *pkg, Quick: TierOpts{MaxPaths: *maxPaths, TimeoutS: *timeout, LoopLimit: *loop}}
 	spec.Thorough = spec.Quick
+	spec.Race = *raceFlag
 	res := runHarness(prog, spec, *tier, 0, *workers, *trace)
 	printResult(res)
 	if *native {
@@ -129,7 +131,13 @@ func printResult(r *HarnessResult) {
 // nativeValidate replays witnesses and violation candidates of the results natively.
 func nativeValidate(prog *Program, mod, pkg string, results []*HarnessResult, tier int) (buildErr string) {
 	modDir, _ := modPatterns(mod)
-	nr := &nativeRunner{verifDir: verifDir, modDir: modDir, pkg: pkg}
+	race := false
+	for _, r := range results {
+		if r.Spec.Race {
+			race = true
+		}
+	}
+	nr := &nativeRunner{verifDir: verifDir, modDir: modDir, pkg: pkg, race: race}
 	os.MkdirAll(filepath.Join(verifDir, ".work"), 0o755)
 	var names []string
 	for _, r := range results {
@@ -164,6 +172,8 @@ func nativeValidate(prog *Program, mod, pkg string, results []*HarnessResult, ti
 			return nres.Status == "panic" || nres.Status == "crash"
 		case "hang", "deadlock":
 			return nres.Status == "timeout" || (nres.Status == "crash" && strings.Contains(nres.Msg, "out of memory"))
+		case "race":
+			return nres.Status == "race"
 		}
 		return false
 	}
@@ -204,7 +214,7 @@ func nativeValidate(prog *Program, mod, pkg string, results []*HarnessResult, ti
 				r.WitnessBad = append(r.WitnessBad, w.Label+": no native result")
 				continue
 			}
-			if nres.Status == "ok" && equalStrs(nres.Obs, w.Obs) && hasLabel(nres.Labels, w.Label) {
+			if (nres.Status == "ok" || nres.Status == "race") && equalStrs(nres.Obs, w.Obs) && hasLabel(nres.Labels, w.Label) {
 				r.WitnessOK++
 			} else {
 				r.WitnessBad = append(r.WitnessBad, fmt.Sprintf("%s: native status=%s label=%s obs=%v want obs=%v msg=%s", w.Label, nres.Status, nres.Label, nres.Obs, w.Obs, firstLine(nres.Msg)))
